@@ -45,6 +45,7 @@ def entered():
 class T(ast.NodeTransformer):
     def __init__(self, modname):
         self.in_hash = 0
+        self.in_repr = 0
         self.modname = modname
         self.stack = []
 
@@ -67,6 +68,11 @@ class T(ast.NodeTransformer):
             self.in_hash += 1
             self.generic_visit(node)
             self.in_hash -= 1
+        elif node.name in ('__repr__', '__str__', '__format__'):
+            # must return a real str: f-strings stay native there (symbolic parts render as inert placeholders)
+            self.in_repr += 1
+            self.generic_visit(node)
+            self.in_repr -= 1
         else:
             self.generic_visit(node)
         qual = self.modname + '.' + '.'.join(self.stack)
@@ -86,6 +92,8 @@ class T(ast.NodeTransformer):
 
     def visit_JoinedStr(self, node):
         self.generic_visit(node)
+        if self.in_repr:
+            return node
         parts = []
         for v in node.values:
             if isinstance(v, ast.Constant):
